@@ -44,6 +44,8 @@ SIMPLE_SALTS = ["s1", "salt", "csdvs887", "", "v2-exp", "HAGFEUAKVDU", "user_exp
 # backslash, braces (str.format / f-string syntax), percent, compatibility characters (NFKC folds them to ASCII syntax)
 TRICKY_STRS = ["C:\\", "a\\", "\\", "it's", 'say "hi"', "{x}", "{}", "{", "}", "{0}", "%s", "%(a)s", "100%", "tab\there", "\\n",
                "\uff02q\uff02", "\uff07", "\ufb01", "x\u00b2", "\u2126", "a\rb", "#", "$a", "`a`", "a;b", "\\'", "{{}}", "é", "日本", "Washington, DC", "a,b", ", ", "x, y)", "(1, 2)", "1, 2", "[a]", "name='a'", "a\tb", " pad ", "2", "2.0", '"""', "'''", 'say """hi"""', '""', "a\\\\", "#!", "x.pyab",
+               # quotes and line breaks SPELLED in other notations (HTML entities, percent-encoding, escapes): plain characters here
+               "Q&quot;A", "it&apos;s", "&#34;", "&#39;x", "a&#10;b", "&amp;", "&lt;b&gt;", "&#x27;", "&NewLine;", "%22", "%27x", "a%0Ab", "\\u0022", "\\x27", "&", "a&b",
                # typographic look-alikes of the language's own punctuation (what a word processor or chat tool makes of ' " - ...)
                "prix_d\u2019\u00e9t\u00e9", "\u2018q\u2019", "\u201cq\u201d", "\u201eq\u201c", "\u00abq\u00bb", "a\u2032b", "a\u2033", "\u00b4", "a\u2013b", "a\u2014b",
                "\u22121", "1\u20442", "a\u2026", "a\u00a0b", "a\u202fb", "\u00ad", "x\u200by", "\ufe63", "\uff0d1", "\uff0c", "\uff1a", "\uff5b\uff5d", "\uff08\uff09"]
